@@ -73,6 +73,8 @@ CFG = {
         "Swat4.C01.E2EExample.plaintext_decodes",
         "Swat4.C01.E2EExample.reply_decodes",
         "Swat4.C01.E2EExample.reply_decodes_malformed",
+        "Swat4.C01.facts_browser_read_buffer",
+        "Swat4.C01.facts_partial_ops_browser",
     ],
     "shards": (4, 16),
     "nontrivial": _c01_nontrivial,
